@@ -113,7 +113,7 @@ func (c *Ctx) NodeTypes() []*types.Named {
 			continue
 		}
 		nt, ok := tn.Type().(*types.Named)
-		if !ok || nt.TypeParams().Len() > 0 {
+		if !ok || nt.TypeParams().Len() > 0 || !tn.Exported() {
 			continue
 		}
 		if _, ok := nt.Underlying().(*types.Struct); !ok {
